@@ -359,6 +359,20 @@ def specs(tier):
                                                              indicators=[{"id": "i", "kind": "FromExpr", "name": ename,
                                                                           "expr": e, "bounds": [0, 6]}],
                                                              objectives=[{"kind": okind, "indicator": "i", "weight": 1}])))
+    # the optimum sits ON the far bound of the declared range (a pin leaves one value only): the best value of a
+    # maximisation equals the lower bound, the one of a minimisation the upper bound
+    for okind, pin in (("MaximizeIndicator", 0), ("MinimizeIndicator", 6)):
+        out.append((f"bounded.pinned_on_far_bound.{okind}", fam.base(
+            8, [fam.fx("t0", 2), fam.vr("t1", 1, 2)], indicators=[
+                {"id": "i", "kind": "FromExpr", "name": "start_t1", "expr": ["start", "t1"], "bounds": [0, 6]}],
+            constraints=[{"id": "p", "kind": "TaskStartAt", "task": "t1", "value": pin}],
+            objectives=[{"kind": okind, "indicator": "i", "weight": 1}])))
+    out.append(("ResourceUtilization.unusable", fam.base(
+        4, [fam.fx("t0", 2)], workers=[{"name": "w0"}, {"name": "w1"}],
+        selections=[{"id": "s0", "workers": ["w0", "w1"], "n": 1, "kind": "exact"}],
+        requirements=[{"task": "t0", "resource": "s0"}],
+        constraints=[{"id": "u", "kind": "ResourceUnavailable", "resource": "w0", "intervals": [[0, 4]]}],
+        objectives=[{"kind": "ResourceUtilization", "resource": "w0"}])))
     # tardiness with non-deadline due dates
     out.append(("user.tardiness", fam.base(7, [fam.fx("t0", 3, due_date=3, due_date_is_deadline=False),
                                                fam.fx("t1", 2, due_date=2, due_date_is_deadline=False)], workers=W,
